@@ -262,13 +262,18 @@ def import_vlsir_primitive(pref: vlsir.utils.QualifiedName) -> Primitive:
 
 def import_scalar_literals(target: Primitive, params: Dict[str, Any]) -> Dict[str, Any]:
     """String values of `Scalar`-typed primitive parameters were exported from `Literal`s.
-    Keep them `Literal`, rather than letting `Scalar` validation re-parse them as numbers."""
+    Keep them `Literal`, rather than letting `Scalar` validation re-parse them as numbers.
+    Also restores the `None` values of optional parameters, which are not exported."""
     from ..scalar import Scalar
 
     params = dict(params)
     for name, param in target.Params.__params__.items():
         if param.dtype in (Scalar, Optional[Scalar]) and isinstance(params.get(name), str):
             params[name] = Literal(text=params[name])
+        elif name not in params and param.dtype in (Optional[Scalar], Optional[str]):
+            # `None`-valued parameters are not exported. An absent optional parameter was therefore `None`,
+            # whatever its default value may be.
+            params[name] = None
     return params
 
 
